@@ -108,6 +108,8 @@ pub fn run(ctx: &Ctx) -> Report {
     rep.absorb(par_cases(&grid, |(n, osc), l| judge(&c02::chain_prog(*n, *osc).render(), "skeleton-chain", &all, l)));
     let lb: Vec<String> = c02::late_bool_progs().iter().map(|p| p.render()).collect();
     rep.absorb(par_cases(&lb, |s, l| judge(s, "late-boolean-directed", &all, l)));
+    let sp: Vec<String> = c02::scope_parent_progs().iter().map(|p| p.render()).collect();
+    rep.absorb(par_cases(&sp, |s, l| judge(s, "scope-parent-directed", &budgets, l)));
     let asmp = asm_block_programs();
     rep.absorb(par_cases(&asmp, |s, l| judge(s, "asm-block-and-assert", &all, l)));
     rep.extra("budgets", json!(budgets));
